@@ -811,6 +811,8 @@ func init() {
 			ruleOneTable(c, w, tb, ef, "R15.2")
 			ruleParserTables(c, w, tb, "R15.3")
 			ruleHistoryIndependence(c, w, tb, ef, "R15.4", w.Funcs(OtpPath, "NewRawSuite", "NewSuite", "ListSuites", "IsKnownSuite", "SuiteConfigFromRaws", "MustRawSuite")...)
+			// the REST face of the registry: list, description and the raw-suite text handed to the library
+			checkRESTEndpoints(c, w, tb, ef, "R15.REST", "/ocra/suite", "/ocra/suites")
 			c.Floor("R15.1", 40)
 			c.Floor("R15.2", 6)
 			c.Floor("R15.3", 10)
